@@ -29,6 +29,9 @@ func handleJcc(params x86genParams, ctx *CodeGenContext) ([]byte, error) {
 		return nil, fmt.Errorf("%s instruction requires destination address", params.OCode.Kind)
 	}
 
+	// pass1 が near 形式としてサイズを数えた分岐は、第 2 オペランド "near" でそれを伝える
+	forceNear := params.OCode.Kind != ocode.OpJMP_FAR && len(params.OCode.Operands) >= 2 && strings.TrimSpace(params.OCode.Operands[1]) == "near"
+
 	var machineCode []byte
 	var opcode byte
 
@@ -95,40 +98,12 @@ func handleJcc(params x86genParams, ctx *CodeGenContext) ([]byte, error) {
 		return machineCode, nil
 
 	case ocode.OpJMP:
-		// JMP rel8 (オペコード: eb, オフセット: 1 byte)
-		// JMP rel16 (オペコード: e9, オフセット: 2 bytes)
-		// JMP rel32 (オペコード: e9, オフセット: 4 bytes)
-		relativeOffset := destAddr - currentAddr // ジャンプ先までの相対距離
-		offsetSize := getOffsetSize(relativeOffset)
-
-		switch offsetSize {
-		case 1:
-			// rel8: Opcode(1) + Offset(1) = 2 bytes
-			machineCode = []byte{0xeb, byte(relativeOffset - 2)}
-		case 2:
-			// rel16: Opcode(1) + Offset(2) = 3 bytes
-			// 16bitモードでの JMP rel16 は E9 cw (3 bytes)。66h プレフィックスは不要。
-			// 32bitモードでの JMP rel16 も E9 cw (3 bytes)。
-			// 32bitモードでは rel32 (E9 cd, 5バイト) が一般的だが、ここでは rel16 を生成する。
-			machineCode = []byte{0xe9, byte(relativeOffset - 3), byte((relativeOffset - 3) >> 8)}
-			// 66h プレフィックスは不要なため、ifブロックを削除
-		default: // rel32
-			// rel32: Opcode(1) + Offset(4) = 5 bytes
-			machineCode = []byte{
-				0xe9,
-				byte(relativeOffset - 5),
-				byte((relativeOffset - 5) >> 8),
-				byte((relativeOffset - 5) >> 16),
-				byte((relativeOffset - 5) >> 24),
-			}
-			// TODO: 32bitモードの場合、オペランドサイズプレフィックス(66h)が不要か確認
-			// JMP rel32 は 32bitモードでは E9 cd (5バイト)
-			// 16bitモードでは 66 E9 cd (6バイト)
-			if ctx.BitMode == cpu.MODE_16BIT {
-				machineCode = append([]byte{0x66}, machineCode...)
-			}
+		// JMP rel8 (eb cb), JMP rel16 (e9 cw, 16-bit operand size), JMP rel32 (e9 cd, 32-bit operand size)
+		code, err := encodeRelativeBranch([]byte{0xeb}, []byte{0xe9}, destAddr, currentAddr, ctx.BitMode, forceNear)
+		if err != nil {
+			return nil, fmt.Errorf("%s: %w", params.OCode.Kind, err)
 		}
-		return machineCode, nil // JMPの場合はここでreturn
+		return code, nil
 	case ocode.OpJA:
 		opcode = 0x77
 	case ocode.OpJAE:
@@ -193,30 +168,43 @@ func handleJcc(params x86genParams, ctx *CodeGenContext) ([]byte, error) {
 		return nil, fmt.Errorf("invalid opcode kind for generateJMPCode: %v", params.OCode.Kind)
 	}
 
-	relativeOffset := destAddr - currentAddr // ジャンプ先までの相対距離を先に計算
-	switch getOffsetSize(relativeOffset) {
-	case 1: // rel8
-		// rel8: Opcode (1) + Offset (1) = 2 bytes
-		// オフセットはジャンプ命令の *次の* 命令のアドレスからの相対距離
-		machineCode = []byte{opcode, byte(relativeOffset - 2)} // 命令サイズ(2)を引くのは正しい
-	case 2: // rel16
-		// rel16: Opcode (2) + Offset (2) = 4 bytes
-		// Jcc rel16/32 のオペコードは 0F 8x
-		offset := relativeOffset - 4 // 命令サイズ(4)を引く
-		machineCode = []byte{0x0f, opcode + 0x10, byte(offset), byte(offset >> 8)}
-	default: // rel32
-		offset := destAddr - currentAddr - 6 // rel32: Opcode (2) + Offset (4) = 6 bytes
-		machineCode = []byte{
-			0x0f,
-			opcode + 0x10, // Jcc rel32 opcode (e.g., 0x87 for JA)
-			byte(offset),
-			byte(offset >> 8),
-			byte(offset >> 16),
-			byte(offset >> 24),
+	// Jcc rel8 (7x cb), Jcc rel16/rel32 (0F 8x cw/cd)
+	machineCode, err = encodeRelativeBranch([]byte{opcode}, []byte{0x0f, opcode + 0x10}, destAddr, currentAddr, ctx.BitMode, forceNear)
+	if err != nil {
+		return nil, fmt.Errorf("%s: %w", params.OCode.Kind, err)
+	}
+	return machineCode, nil
+}
+
+// encodeRelativeBranch は相対分岐をエンコードします。変位は「次の命令のアドレス」からの距離です。
+// shortOp が nil でなく forceNear でもなければ、rel8 に収まる場合は short 形式を使います。
+// near 形式の変位幅はオペランドサイズ (16 ビットモードでは rel16、32 ビットモードでは rel32) です。
+// 16 ビットモードで 64K に収まらない分岐先は 66h プレフィックス付きの rel32 形式になります。
+func encodeRelativeBranch(shortOp, nearOp []byte, destAddr, currentAddr int64, bitMode cpu.BitMode, forceNear bool) ([]byte, error) {
+	if shortOp != nil && !forceNear {
+		rel := destAddr - (currentAddr + int64(len(shortOp)) + 1)
+		if rel >= -0x80 && rel <= 0x7f {
+			return append(append([]byte{}, shortOp...), byte(rel)), nil
 		}
 	}
-
-	return machineCode, nil
+	if bitMode == cpu.MODE_16BIT {
+		rel := destAddr - (currentAddr + int64(len(nearOp)) + 2)
+		if rel >= -0x8000 && rel <= 0x7fff || (destAddr >= 0 && destAddr <= 0xffff && currentAddr >= 0 && currentAddr+int64(len(nearOp))+2 <= 0x10000) {
+			// IP は 64K で折り返すので、同じセグメント内ならどこへでも rel16 で届く
+			return append(append([]byte{}, nearOp...), byte(rel), byte(rel>>8)), nil
+		}
+		rel = destAddr - (currentAddr + int64(len(nearOp)) + 5)
+		if rel < -0x80000000 || rel > 0x7fffffff {
+			return nil, fmt.Errorf("branch target %#x out of range", destAddr)
+		}
+		code := append([]byte{0x66}, nearOp...)
+		return append(code, byte(rel), byte(rel>>8), byte(rel>>16), byte(rel>>24)), nil
+	}
+	rel := destAddr - (currentAddr + int64(len(nearOp)) + 4)
+	if rel < -0x80000000 || rel > 0x7fffffff {
+		return nil, fmt.Errorf("branch target %#x out of range", destAddr)
+	}
+	return append(append([]byte{}, nearOp...), byte(rel), byte(rel>>8), byte(rel>>16), byte(rel>>24)), nil
 }
 
 // -128～127, -32768～32767 などの判定に使う
